@@ -54,7 +54,7 @@ ASSUMPTIONS = [
 ]
 WORKERS = {"quick": 16, "thorough": 16}
 REQUIRE = dict({"checked_" + t: 20 for t in R.MESSAGE_TYPES},
-               **{"subsets_enumerated": 2000, "status_values_swept": 65536, "with_dataset": 2000,
+               **{"subsets_enumerated": 1925, "status_values_swept": 65536, "with_dataset": 2000,
                   "multi_valued_at": 500, "multi_fragment_command": 200, "max_len_uid": 200, "max_len_ae": 50,
                   "roundtrips_completed": 20000})
 EXHAUSTIVE = {"quick": False, "thorough": False}
@@ -222,8 +222,8 @@ def make_spec(t, mask, prof, rng):
 # ----------------------------------------------------------------------------- cases
 
 def gen_cases(tier, seed):
-    nprof = 8 if tier == "quick" else 160
-    per_case = 1500 if tier == "quick" else 12000
+    nprof = 24 if tier == "quick" else 600
+    per_case = 1600 if tier == "quick" else 20000
     cases = []
     for t in R.MESSAGE_TYPES:
         n = n_subsets(t)
